@@ -533,6 +533,34 @@ def check_flatten_union_complete(ctx):
                        allow=allow, what='parent',
                        consequence='its marker list is left out of the '
                        'flat marker set')
+        # ... and the table walked is the table as loaded: the only
+        # definition of it that reaches the loop is the read of the file
+        # (the bookkeeping keys are popped in place); a table rebuilt with
+        # a selection of its groups has already lost lists
+        rd = rd_of(fi)
+        tbl = lp.iter
+        while isinstance(tbl, ast.Call) and tbl.args:
+            tbl = tbl.args[0]
+        if isinstance(tbl, ast.Call) and isinstance(
+                tbl.func, ast.Attribute):
+            tbl = tbl.func.value
+        if isinstance(tbl, ast.Name):
+            ns = [x for x in cfg.nodes_of(lp) if x.kind == 'for'
+                  and x.id in rd.live]
+            defs = rd.reaching(tbl.id, ns[0].id) if ns else []
+            bad = [d for d in defs if not (
+                d.kind == 'assign' and isinstance(d.value, ast.Call)
+                and getattr(d.value.func, 'attr', getattr(
+                    d.value.func, 'id', None)) in ('load', 'loads'))]
+            ok = bool(defs) and not bad
+            ctx.ob(rule, '_run_mapping:flatten-table', fi.loc(lp), ok,
+                   'the union runs over the marker table as loaded' if ok
+                   else f'the table the flat marker set is built from is '
+                   f'`{unparse(bad[0].value)[:60] if bad and bad[0].value is not None else tbl.id}`, '
+                   'not the table as loaded: groups removed before the '
+                   'union (those of a dropped level) no longer contribute '
+                   'their genes, and flatten + drop_level differs from '
+                   'the one-level run with the union of all lists')
 
 
 def check_tree_and_parents_agree(ctx):
